@@ -298,3 +298,7 @@ add("C18",
     V("isdigit-instead-of-isdecimal", "C18", [(LOCALE, "            if token.isdecimal():", "            if token.isdigit():")], "fire", "C18.R2"),
     V("twin-digit-class-spelled-differently", "C18", [(DATE, 'RE_SANITIZE_PERIOD = re.compile(r"(?<=[^\\d\\s])\\.", flags=re.U)', 'RE_SANITIZE_PERIOD = re.compile(r"(?<![\\d\\s])(?<=.)\\.", flags=re.U)')], "silent"),
     )
+
+add("C03",
+    V("new-settings-dependent-locale-cache", "C03", [(LOCALE, "    def _get_relative_translations(self, settings=None):\n        if settings.NORMALIZE:", "    def _get_relative_translations(self, settings=None):\n        if self._relative_translations is None and settings.SKIP_TOKENS:\n            self._relative_translations = OrderedDict(\n                (k, v) for k, v in self._generate_relative_translations(normalize=False).items()\n                if v not in settings.SKIP_TOKENS\n            )\n        if settings.NORMALIZE:")], "fire", "C03.R5"),
+    )
